@@ -440,6 +440,23 @@ fn exec_op(st: &State, op: &str, c: &Cmd, nested: bool) -> OpResult {
                 Ok(obj! {"ct": hexv(&ct)})
             }
         }
+        "seal_huge" => {
+            // A plaintext far beyond what any AEAD accepts, as a lazily mapped zero region of `len` bytes
+            // (MAP_NORESERVE: never backed by memory unless the library writes to it - which it must not).
+            let h = st.need_ctx(c.str("ctx")?)?;
+            let aad = c.bytes("aad")?;
+            let len: usize = c.str("len")?.parse().map_err(|_| tool("len must be a decimal string"))?;
+            let mut g = lock(&h);
+            if g.role() != "S" {
+                return Err(tool("seal on a receiver context"));
+            }
+            let map = HugeMap::new(len).ok_or_else(|| tool("cannot map the region"))?;
+            let buf = unsafe { std::slice::from_raw_parts_mut(map.ptr, map.len) };
+            match guard(|| Ok(g.seal_detached(buf, &aad)))? {
+                Ok(tag) => Ok(obj! {"tag": hexv(&tag)}),
+                Err(e) => Err(e.into()),
+            }
+        }
         "open" => {
             let h = st.need_ctx(c.str("ctx")?)?;
             let (ct, aad) = (c.bytes("ct")?, c.bytes("aad")?);
@@ -763,4 +780,42 @@ fn main() {
     drop(out);
     // Do not run destructors of remaining contexts / join workers: the run is over
     std::process::exit(exit_code);
+}
+
+
+/// An anonymous, zero-filled, lazily backed mapping (Linux): lets `seal_huge` hand the library a slice of 2^36+ bytes.
+struct HugeMap {
+    ptr: *mut u8,
+    len: usize,
+}
+
+extern "C" {
+    fn mmap(addr: *mut u8, len: usize, prot: i32, flags: i32, fd: i32, off: i64) -> *mut u8;
+    fn munmap(addr: *mut u8, len: usize) -> i32;
+}
+
+impl HugeMap {
+    fn new(len: usize) -> Option<HugeMap> {
+        const PROT_READ: i32 = 1;
+        const PROT_WRITE: i32 = 2;
+        const MAP_PRIVATE: i32 = 0x02;
+        const MAP_ANONYMOUS: i32 = 0x20;
+        const MAP_NORESERVE: i32 = 0x4000;
+        let p = unsafe {
+            mmap(std::ptr::null_mut(), len, PROT_READ | PROT_WRITE, MAP_PRIVATE | MAP_ANONYMOUS | MAP_NORESERVE, -1, 0)
+        };
+        if p as isize == -1 || p.is_null() {
+            None
+        } else {
+            Some(HugeMap { ptr: p, len })
+        }
+    }
+}
+
+impl Drop for HugeMap {
+    fn drop(&mut self) {
+        unsafe {
+            munmap(self.ptr, self.len);
+        }
+    }
 }
